@@ -25,7 +25,8 @@
 //   S<t><i>,<x>    t[i] = x
 // output : one record per op, separated by " | ", then the record of the final
 //          destruction of both slots:
-//   <ret>;<l|h><capacity>[v,v,..];<l|h><capacity>[..];<a==b><a<b><b<a>;<live>;<flags>;<ref>
+//   <ret>;<l|h><capacity>[v,v,..];<l|h><capacity>[..];<a==b><a!=b><a<b><a<=b><a>b><a>=b>;<live>;<flags>;<ref>
+//   (double: the values 100001..100008 stand for -0.0, two NaNs, +-inf, denormals)
 //   ret   index returned by insert, '-' otherwise
 //   live  number of live Tracked objects ('-' for the other element types)
 //   flags lifetime errors seen by Tracked since the previous record:
@@ -118,16 +119,49 @@ template<> struct conv<int>
   static int mk(int z) { return z; }
   static std::string show(const int &v) { return std::to_string(v); }
 };
+// special doubles travel as the codes 100001..100008
+const std::uint64_t special_bits[] = {
+  0x8000000000000000ull,   // 100001  -0.0
+  0x7ff8000000000000ull,   // 100002  quiet NaN
+  0x7ff8000000000123ull,   // 100003  quiet NaN, another payload
+  0x7ff0000000000000ull,   // 100004  +inf
+  0xfff0000000000000ull,   // 100005  -inf
+  0x0000000000000001ull,   // 100006  smallest denormal
+  0x8000000000000001ull,   // 100007  -smallest denormal
+  0x000fffffffffffffull};  // 100008  largest denormal
+
 template<> struct conv<double>
 {
-  static double mk(int z) { return z; }
+  static double mk(int z)
+  {
+    if (z > 100000 && z <= 100008)
+    {
+      double d;
+      std::memcpy(&d, &special_bits[z - 100001], sizeof(d));
+      return d;
+    }
+    return z;
+  }
   static std::string show(const double &v)
   {
+    std::uint64_t u;
+    std::memcpy(&u, &v, sizeof(u));
+    for (int k(0); k < 8; ++k)
+      if (u == special_bits[k])
+        return std::to_string(100001 + k);
     if (v == v && v > -1e9 && v < 1e9 && v == static_cast<double>(static_cast<long>(v)))
       return std::to_string(static_cast<long>(v));
     return "?";
   }
 };
+
+// "the same element": the same object representation for double (NaN is the
+// same as itself, +0.0 is not -0.0), operator== otherwise
+template<class T> bool same_elem(const T &a, const T &b) { return a == b; }
+template<> bool same_elem<double>(const double &a, const double &b)
+{
+  return std::memcmp(&a, &b, sizeof(double)) == 0;
+}
 template<> struct conv<std::string>
 {
   // order preserving, long enough to live on the heap (leaks are visible);
@@ -196,26 +230,26 @@ struct machine
 
   static bool same(const SV &v, const RV &r)
   {
-    return v.size() == r.size() && std::equal(v.begin(), v.end(), r.begin());
+    return v.size() == r.size() && std::equal(v.begin(), v.end(), r.begin(), same_elem<T>);
   }
 
   std::string record(long ret, long ref_ret)
   {
     std::string out(ret < 0 ? "-" : std::to_string(ret));
     out += ";" + show_slot(0) + ";" + show_slot(1) + ";";
-    const bool eq(*sv[0] == *sv[1]), lt(*sv[0] < *sv[1]), gt(*sv[0] > *sv[1]);
-    out += eq ? "1" : "0";
-    out += lt ? "1" : "0";
-    out += gt ? "1" : "0";
+    const bool eq(*sv[0] == *sv[1]), ne(*sv[0] != *sv[1]), lt(*sv[0] < *sv[1]), le(*sv[0] <= *sv[1]),
+               gt(*sv[0] > *sv[1]), ge(*sv[0] >= *sv[1]);
+    for (bool b : {eq, ne, lt, le, gt, ge})
+      out += b ? "1" : "0";
     // live Tracked objects owned by the two small_vectors (the mirrors' own
     // elements are not counted)
     out += ";" + (tracked ? std::to_string(g_live.size() - rv[0].size() - rv[1].size()) : std::string("-"));
     out += ";" + (g_flags.empty() ? std::string("-") : g_flags);
     bool ok(same(*sv[0], rv[0]) && same(*sv[1], rv[1]) && ret == ref_ret
             && eq == (rv[0] == rv[1]) && lt == (rv[0] < rv[1]) && gt == (rv[0] > rv[1])
-            && (*sv[0] != *sv[1]) == (rv[0] != rv[1])
-            && (*sv[0] <= *sv[1]) == (rv[0] <= rv[1])
-            && (*sv[0] >= *sv[1]) == (rv[0] >= rv[1]));
+            && ne == (rv[0] != rv[1]) && le == (rv[0] <= rv[1]) && ge == (rv[0] >= rv[1])
+            // a vector compared with itself and with a copy of itself
+            && (*sv[0] == *sv[0]) == (rv[0] == rv[0]) && (*sv[1] == *sv[1]) == (rv[1] == rv[1]));
     for (int t(0); t < 2; ++t)
     {
       SV &v(*sv[t]);
@@ -226,10 +260,11 @@ struct machine
            && cv.end() == cv.cend() && v.end() == v.begin() + v.size()
            && v.max_size() >= v.capacity();
       if (ok && !r.empty())
-        ok = v.front() == r.front() && v.back() == r.back() && cv.front() == r.front()
-             && cv.back() == r.back() && v[0] == r[0] && cv[r.size() - 1] == r[r.size() - 1];
-      ok = ok && std::equal(v.rbegin(), v.rend(), r.rbegin(), r.rend())
-           && std::equal(cv.rbegin(), cv.rend(), r.rbegin(), r.rend());
+        ok = same_elem(v.front(), r.front()) && same_elem(v.back(), r.back())
+             && same_elem(cv.front(), r.front()) && same_elem(cv.back(), r.back())
+             && same_elem(v[0], r[0]) && same_elem(cv[r.size() - 1], r[r.size() - 1]);
+      ok = ok && std::equal(v.rbegin(), v.rend(), r.rbegin(), r.rend(), same_elem<T>)
+           && std::equal(cv.rbegin(), cv.rend(), r.rbegin(), r.rend(), same_elem<T>);
     }
     out += ok ? ";ok" : ";BAD";
     g_flags.clear();
@@ -353,15 +388,15 @@ struct machine
         r.push_back(T(r[static_cast<std::size_t>(z[0])]));
         break;
       case 'E':
-        if constexpr (std::is_same_v<T, std::string>)
+        if constexpr (tracked)
         {
-          v.emplace_back(conv<T>::mk(z[0]));
-          r.emplace_back(conv<T>::mk(z[0]));
+          v.emplace_back(z[0]);   // Tracked(int)
+          r.emplace_back(z[0]);
         }
         else
         {
-          v.emplace_back(z[0]);
-          r.emplace_back(z[0]);
+          v.emplace_back(conv<T>::mk(z[0]));
+          r.emplace_back(conv<T>::mk(z[0]));
         }
         break;
       case 'G':
